@@ -207,7 +207,11 @@ func (c *CaseC18) Eval(ob *Obs) []Finding {
 				go func() { p.ParseFile("/sim/in.yaml"); exited.Store(true) }()
 			}
 
+			recording := true
 			record := func(kind, val string) {
+				if !recording {
+					return // clean-up after the consumer has finished: not part of what it observed
+				}
 				history = append(history, recvEvent{kind, val})
 				decisions = append(decisions, "recv:"+kind)
 				if n := len(c.ConsStall); n > 0 {
@@ -297,6 +301,7 @@ func (c *CaseC18) Eval(ob *Obs) []Finding {
 				time.Sleep(time.Duration(d))
 			}
 			consumerFinished = finished()
+			recording = false
 			// let the producer side run as far as it can on its own
 			for i := 0; i < 100000; i++ {
 				synctest.Wait()
